@@ -60,6 +60,8 @@ def op_jdn(op):
         return [Kw("tcd"), op_jdn(op[1])]
     if k == "badnr":
         return [Kw("badnr"), op[1], op_jdn(op[2])]
+    if k == "cca":
+        return [Kw("cca"), op[1], op_jdn(op[2])]
     raise ValueError(op)
 
 
@@ -109,15 +111,21 @@ def make_actions(cfg):
             w = idle[0]
             # ("sleep", 2) coincides with the dl-2 deadline of ANOTHER worker started at the same instant
             # (never with a deadline of the same fiber: that order is unspecified)
-            ops = [("sleep", 1), ("sleep", 2), ("sleep", 3), ("dl", 2, ("sleep", 3)), ("dl", 2, ("sleep", 1)),
-                   # a bare (ev/deadline 1) set inside a nested fiber that has ended: it must not reach the task's next wait
-                   ("dlc", 1, ("sleep", 3))]
-            if nchan:
-                ops.append(("dlc", 1, ("take", 0)))
-            # socket calls rejected for bad arguments while carrying a timeout, then a real wait
-            ops.append(("badnr", 0.5, ("sleep", 3)))
-            if nchan:
-                ops.append(("badnr", 0.5, ("take", 0)))
+            ops = [("sleep", 1), ("sleep", 2), ("sleep", 3), ("dl", 2, ("sleep", 3)), ("dl", 2, ("sleep", 1))]
+            if cfg.get("extras"):
+                # operations that arm or register something and give it up at once, followed by a real wait. They are part
+                # of the configurations marked extras=True only, so that the others keep their depth in the quick tier.
+                # a bare (ev/deadline 1) set inside a nested fiber that has ended: it must not reach the task's next wait
+                ops.append(("dlc", 1, ("sleep", 3)))
+                if nchan:
+                    ops.append(("dlc", 1, ("take", 0)))
+                ops.append(("cca", 0.5, ("sleep", 3)))
+                if nchan:
+                    ops.append(("cca", 0.5, ("take", 0)))
+                # socket calls rejected for bad arguments while carrying a timeout, then a real wait
+                ops.append(("badnr", 0.5, ("sleep", 3)))
+                if nchan:
+                    ops.append(("badnr", 0.5, ("take", 0)))
             if cfg.get("focus") == "thread":
                 # a thread call abandoned at its deadline, the thread finishing afterwards, then a real wait (every
                 # such history costs real-time patience for the live thread, hence a configuration of its own)
@@ -163,7 +171,7 @@ def make_actions(cfg):
             def reads(o):
                 if o[0] == "trw":
                     return o[1]
-                if o[0] in ("tcd", "badnr"):
+                if o[0] in ("tcd", "badnr", "cca"):
                     return None
                 o2 = o[2] if o[0] in ("dl", "dlc") else (o[3] if o[0] == "badw" else o)
                 return o2[1] if o2[0] in ("read", "chunk") else None
@@ -213,6 +221,8 @@ def shape(a):
             return "tcd(" + osh(op[1]) + ")"
         if op[0] == "badnr":
             return "badnr(" + osh(op[2]) + ")"
+        if op[0] == "cca":
+            return "cca(" + osh(op[2]) + ")"
         return op[0]
     return a[0] + (":" + osh(a[2]) if a[0] == "start" else "")
 
@@ -305,6 +315,10 @@ def replay_text(cfg, hist, what):
             return "(os/proc-wait (procs %d))" % op[1]
         if k == "dlc":
             return "(do (resume (coro (ev/deadline %s) :done)) %s)" % (op[1], oe(op[2]))
+        if k == "cca":
+            return ("(do (protect (string/replace \"a\" (fn [x] (resume (fiber/new (fn [] (ev/sleep %s)))) \"b\") \"a\")) "
+                    "(protect (peg/match ~(cmt 1 ,(fn [& xs] (resume (fiber/new (fn [] (ev/take (ev/chan))))) true)) \"a\")) %s)"
+                    % (op[1], oe(op[2])))
         if k == "badnr":
             return ("(do (protect (net/read sock -1 nil %s)) (protect (net/chunk sock 1.5 nil %s)) (protect (net/write sock 12345 %s)) %s)"
                     "   # sock: any connected socket stream" % (op[1], op[1], op[1], oe(op[2])))
@@ -330,8 +344,9 @@ def replay_text(cfg, hist, what):
 
 
 def explore(chk, cfg, depth, max_states=None, stop_at=None):
-    label = "caps=%s pipes=%d procs=%d workers=%d%s" % (list(cfg["caps"]), cfg.get("npipes", 0), cfg.get("nprocs", 0), cfg["nw"],
-                                                            " thread-channels" if cfg.get("tchan") else "")
+    label = "caps=%s pipes=%d procs=%d workers=%d%s%s" % (list(cfg["caps"]), cfg.get("npipes", 0), cfg.get("nprocs", 0), cfg["nw"],
+                                                              " thread-channels" if cfg.get("tchan") else "",
+                                                              " extras" if cfg.get("extras") else "")
     init = TModel(cfg["caps"], cfg["nw"], cfg.get("npipes", 0), cfg.get("nprocs", 0))
 
     def run_layer(hists):
@@ -434,12 +449,13 @@ def main():
     chk.assume("virtual time: epoll_wait/timerfd/clock_gettime interposed, time advances only when the loop is idle; "
                "sleep and deadline durations never coincide for one fiber; one reader per pipe (C16 covers sharing)")
     if chk.quick:
-        cfgs = [(dict(caps=(0,), nw=2), 5), (dict(caps=(1,), nw=2), 5), (dict(caps=(0, 1), nw=2), 4),
+        cfgs = [(dict(caps=(0,), nw=2), 5), (dict(caps=(0,), nw=2, extras=True), 4), (dict(caps=(1,), nw=2), 5), (dict(caps=(0, 1), nw=2), 4),
                 (dict(caps=(0,), nw=3), 4), (dict(caps=(), nw=2, npipes=1), 4), (dict(caps=(0,), nw=2, npipes=1), 3),
                 (dict(caps=(0,), nw=2, nprocs=1, npipes=1, free_tick=True, focus="proc"), 4),
                 (dict(caps=(0,), nw=2, free_tick=True, focus="thread"), 2)]
     else:
-        cfgs = [(dict(caps=(0,), nw=2), 8), (dict(caps=(1,), nw=2), 8), (dict(caps=(2,), nw=2), 7),
+        cfgs = [(dict(caps=(0,), nw=2), 8), (dict(caps=(0,), nw=2, extras=True), 6), (dict(caps=(1,), nw=2, extras=True), 5),
+                (dict(caps=(1,), nw=2), 8), (dict(caps=(2,), nw=2), 7),
                 (dict(caps=(0, 1), nw=2), 6), (dict(caps=(0, 0), nw=2), 6), (dict(caps=(1, 1), nw=2), 6),
                 (dict(caps=(0,), nw=3), 7), (dict(caps=(1,), nw=3), 7), (dict(caps=(0, 1), nw=3), 5),
                 (dict(caps=(), nw=2, npipes=1), 8), (dict(caps=(0,), nw=2, npipes=1), 6),
